@@ -493,7 +493,11 @@ impl Loop3D {
         }
 
         // Ray cast
-        let d = (point - (self.vertices[0] + self.vertices[1]) * 0.5) * 1000.; // Should be enough...?
+        // ... away from the midpoint of the first edge and as long as the whole
+        // outline, so that it always ends outside of the loop
+        let mut d = point - (self.vertices[0] + self.vertices[1]) * 0.5;
+        d.normalize();
+        d *= self.perimeter;
         let ray = Segment3D::new(point, point + d);
 
         let mut n_cross = 0;
